@@ -23,14 +23,18 @@ def encPtr (tag payload : Nat) : Int := W64 * ((8 * payload + tag + 8 : Nat) : I
 def ptrTag (v : Int) : Nat := if v < W64 then 0 else (v / W64).toNat % 8
 def ptrPayload (v : Int) : Nat := (v / W64).toNat / 8 - 1
 
-def bytesToNat (b : Bytes) : Nat := b.foldl (fun acc x => acc * 256 + x.toNat) 1
-/-- inverse of `bytesToNat` (fuel = number of digits) -/
-def natToBytes : Nat → Nat → Bytes → Bytes
-  | 0, _, acc => acc
-  | fuel + 1, n, acc => if n ≤ 1 then acc else natToBytes fuel (n / 256) (UInt8.ofNat (n % 256) :: acc)
+/-- base-256 digits after a leading 1, least significant byte first in the argument -/
+def natOfRev : Bytes → Nat
+  | [] => 1
+  | x :: xs => natOfRev xs * 256 + x.toNat
+def bytesToNat (b : Bytes) : Nat := natOfRev b.reverse
+/-- inverse of `natOfRev` (fuel = an upper bound of the number of digits) -/
+def natToRev : Nat → Nat → Bytes
+  | 0, _ => []
+  | fuel + 1, n => if n ≤ 1 then [] else UInt8.ofNat (n % 256) :: natToRev fuel (n / 256)
 
 def encSS (b : Bytes) : Int := encPtr 1 (bytesToNat b)
-def decSS (v : Int) : Bytes := let n := ptrPayload v; natToBytes (n + 1) n []
+def decSS (v : Int) : Bytes := (natToRev (ptrPayload v) (ptrPayload v)).reverse
 def encStr (n : Nat) : Int := encPtr 2 n
 def decStr (v : Int) : Nat := ptrPayload v
 def encIt (k : Nat) : Int := encPtr 3 k
@@ -39,7 +43,7 @@ def decIt (v : Int) : Nat := ptrPayload v
 def encRe (re : Bytes) (nocase : Bool) : Int := encPtr 4 (2 * bytesToNat re + (if nocase then 1 else 0))
 def decRe (v : Int) : Bytes × Bool :=
   let p := ptrPayload v
-  (natToBytes (p / 2 + 1) (p / 2) [], p % 2 == 1)
+  ((natToRev (p / 2) (p / 2)).reverse, p % 2 == 1)
 
 def fltToVm (f : Float) : Int := C.wrap (f.toBits.toNat : Int)
 def vmToFlt (v : Int) : Float := Float.ofBits (UInt64.ofNat (v % W64).toNat)
@@ -152,6 +156,20 @@ deriving Repr
 
 def isU (v : Int) : Bool := C.isUndef v
 
+/-- offset / length of the i-th (1-based) match, UNDEF when there is none (OP_OFFSET / OP_LENGTH) -/
+def nthOff (ms : List (Int × Int)) (i : Int) : Int :=
+  match nth ms i with
+  | some m => m.1
+  | none => C.UNDEF
+def nthLen (ms : List (Int × Int)) (i : Int) : Int :=
+  match nth ms i with
+  | some m => m.2
+  | none => C.UNDEF
+
+/-- OP_MATCHES with a literal-only regular expression -/
+def matchWord (re a : Int) : Int :=
+  C.b2i (if (decRe re).2 then containsS (lowerS (decSS a)) (lowerS (decRe re).1) else containsS (decSS a) (decRe re).1)
+
 def matchesOfStr (env : Env) (sv : Int) : List (Int × Int) := env.strs.getD (decStr sv) []
 
 /-- pop words down to (and including) the UNDEF end-of-list marker: (items in push order, rest) -/
@@ -200,13 +218,9 @@ def step (env : Env) (i : Instr) (s : St) : Option St :=
   | .countIn, sv :: hi :: lo :: st =>
       next ((if isU lo || isU hi then C.UNDEF else (((matchesOfStr env sv).countP (inRange lo hi) : Nat) : Int)) :: st)
   | .offset, sv :: x :: st =>
-      next ((if isU x then C.UNDEF else match nth (matchesOfStr env sv) x with
-        | some m => m.1
-        | none => C.UNDEF) :: st)
+      next ((if isU x then C.UNDEF else nthOff (matchesOfStr env sv) x) :: st)
   | .length, sv :: x :: st =>
-      next ((if isU x then C.UNDEF else match nth (matchesOfStr env sv) x with
-        | some m => m.2
-        | none => C.UNDEF) :: st)
+      next ((if isU x then C.UNDEF else nthLen (matchesOfStr env sv) x) :: st)
   | .of_ rules, st =>
       let (items, rest) := popToMarker st []
       match rest with
@@ -235,10 +249,7 @@ def step (env : Env) (i : Instr) (s : St) : Option St :=
         if isU x then next (C.UNDEF :: st') else
         next (ofResult q (items.countP fun sv => (matchesOfStr env sv).any fun m => m.1 == x) items.length :: st')
       | [] => none
-  | .matches, re :: a :: st =>
-      next ((if isU re || isU a then C.UNDEF else
-        let (pat, nc) := decRe re
-        C.b2i (if nc then containsS (lowerS (decSS a)) (lowerS pat) else containsS (decSS a) pat)) :: st)
+  | .matches, re :: a :: st => next ((if isU re || isU a then C.UNDEF else matchWord re a) :: st)
   | .clearM k, st => some { s with pc := s.pc + 1, stack := st, mem := setM s.mem k 0 }
   | .incrM k, st => some { s with pc := s.pc + 1, stack := st, mem := setM s.mem k (C.add (getM s.mem k) 1) }
   | .addM k, v :: st =>
